@@ -104,6 +104,10 @@ type config struct {
 	Shared  bool     `json:"shared"`
 	Engine  string   `json:"engine"`
 	History []string `json:"history,omitempty"`
+	// WarmLimit > 0: the runtime shares a compilation cache with ANOTHER runtime, configured with this memory limit,
+	// that compiled and instantiated the same binary first (a limit is a per-runtime setting: what one runtime's limit
+	// makes of the memory's maximum must not be baked into code the other runtime runs)
+	WarmLimit uint32 `json:"warm_limit,omitempty"`
 }
 
 func (c config) maxStr() string {
@@ -220,7 +224,17 @@ func newInst(c config) *inst {
 	} else {
 		rc = wazero.NewRuntimeConfigInterpreter()
 	}
-	rc = rc.WithCoreFeatures(features()).WithMemoryLimitPages(c.Limit).WithMemoryCapacityFromMax(c.CFM)
+	rc = rc.WithCoreFeatures(features()).WithMemoryCapacityFromMax(c.CFM)
+	if c.WarmLimit > 0 {
+		cache := wazero.NewCompilationCache()
+		rc = rc.WithCompilationCache(cache)
+		wrt := wazero.NewRuntimeWithConfig(ctx, rc.WithMemoryLimitPages(c.WarmLimit))
+		if cm, err := wrt.CompileModule(ctx, module(c.Min, c.Max, c.Shared)); err == nil {
+			_ = cm // kept open: the entry stays in the shared cache
+		}
+		// (the warm-up runtime is left open on purpose: closing it would delete the shared entry)
+	}
+	rc = rc.WithMemoryLimitPages(c.Limit)
 	rt := wazero.NewRuntimeWithConfig(ctx, rc)
 	if _, err := rt.NewHostModuleBuilder("env").NewFunctionBuilder().WithGoModuleFunction(api.GoModuleFunc(func(_ context.Context, mod api.Module, stack []uint64) {
 		prev, ok := mod.Memory().Grow(uint32(stack[0]))
@@ -674,6 +688,14 @@ func main() {
 					for k := 0; k < n; k++ {
 						c := config{Min: l.min, Max: l.max, Limit: l.limit, CFM: cfm, Alloc: alloc, Engine: e}
 						history(c, genDeltas(r, l.min, l.max, l.limit), r)
+					}
+					if l.min >= 1 && l.min < l.limit && !cfm {
+						// the same binary compiled first by a runtime whose limit is the memory's minimum (there the memory can
+						// never grow), and by one whose limit is one page more
+						for _, wl := range []uint32{l.min, l.min + 1} {
+							c := config{Min: l.min, Max: l.max, Limit: l.limit, Alloc: alloc, Engine: e, WarmLimit: wl}
+							history(c, genDeltas(r, l.min, l.max, l.limit), r)
+						}
 					}
 				}
 			}
